@@ -3,7 +3,7 @@
 import sys, os, glob
 sys.path.insert(0, os.path.join(os.path.dirname(__file__), ".."))
 from analysis.facts import Program
-d = os.environ.get("FACTS") or max(glob.glob("/verif/.cache/facts/*/"), key=os.path.getmtime)
+d = os.environ.get("FACTS") or os.path.dirname(max(glob.glob("/verif/.cache/facts/*/scrut-lib.json"), key=os.path.getmtime))
 prog = Program(sorted(glob.glob(d + "/*.json")))
 for a in sys.argv[1:]:
     fs = prog.find_fns(a)
